@@ -6,6 +6,7 @@ mod c06;
 mod c13;
 mod c14;
 mod c18;
+mod c20;
 mod common;
 mod corpus;
 mod gen;
@@ -42,6 +43,10 @@ macro_rules! dispatch {
             }
             "C18" => {
                 let $p = c18::C18;
+                $body
+            }
+            "C20" => {
+                let $p = c20::C20;
                 $body
             }
             other => {
